@@ -16,6 +16,37 @@ def run(rep, prog, tier):
     r1(rep, prog)
     r2(rep, prog)
     r3(rep, prog)
+    r4(rep, prog)
+
+
+def r4(rep, prog):
+    """the document serializer writes the stored values in the order the document yields them"""
+    import re
+    R = "C09-R4"
+    rep.rule(R, "order of stored values: between Document::iter_fields_and_values and the bytes written, the document serializer (BinaryDocumentSerializer::serialize_doc and everything it reaches inside schema::document) never passes the values through an order-destroying primitive — slice::sort_unstable* / select_nth_unstable* (equal keys, i.e. several values of one field, come back in arbitrary order) or a hash container; a stable sort or no sort keeps 'several values per field in order'")
+    entry = SE.replace("BinaryValueSerializer", "BinaryDocumentSerializer") + "serialize_doc"
+    if entry not in prog.bodies:
+        cands = prog.names(r"BinaryDocumentSerializer::<.*>::serialize_doc$")
+        entry = cands[0] if cands else entry
+    if entry not in prog.bodies:
+        rep.fail(R, "anchor", "cannot establish: BinaryDocumentSerializer::serialize_doc not found")
+        return
+    scope = lambda y: "tantivy::schema::document" in y
+    reach = prog.reachable_bodies([entry], scope=scope) | {n for n in prog.bodies if n.startswith(entry + "::{closure")}
+    BAD = re.compile(r"::(sort_unstable(_by(_key)?)?|select_nth_unstable(_by(_key)?)?)$|collections::hash::(map::HashMap|set::HashSet)<.*>::(from_iter|insert|extend)$|HashMap::<.*>::(insert|entry)$")
+    n = 0
+    for fid in sorted(reach):
+        b = prog.bodies[fid]
+        for bi, t in b.calls():
+            n += 1
+            f = t.get("res") or t.get("f") or ""
+            f2 = t.get("f") or ""
+            if BAD.search(f) or BAD.search(f2):
+                rep.fail(R, "%s reorders through %s" % (short(fid), short(f2 or f)),
+                         "%s, on the path that serialises a document for the doc store, calls `%s`: the relative order of the values of one field is no longer the order in which they were added "
+                         "(an unstable sort keeps no order between equal keys)" % (fid, f2 or f), site=site(b, bi))
+    rep.check(len(reach) >= 5, R, "serializer bodies examined", "%d bodies, %d calls, no order-destroying primitive" % (len(reach), n),
+              "cannot establish: only %d bodies reachable from serialize_doc" % len(reach), site=prog.bodies[entry].span)
 
 
 def r3(rep, prog):
